@@ -256,6 +256,7 @@ def _history(kind, tier, chunk, nchunks, is_canary):
               ("insert(CaT)@branch(2)", "insert(CaL)@branch(2).comp(0)", "delete_channel(CaL)@branch(2).comp(0)"), ("insert(K)@branch(2).comp(1)", "insert(Na)@all", "delete_channel(Na)@branch(0)"),
               ("insert(K)@branch(0)", "insert(Na)@all", "delete_channel(K)@branch(0)", "delete_channel(Na)@all"),
               ("stimulate@branch(2).comp(0)", "stimulate@branch(1)", "stimulate@branch(0)", "delete_stimuli@branch(0)"),
+              ("insert(Na)@all", "set(vt)@all", "insert(K)@branch(2).comp(1)"),          # known finding F25 (insertion overwrites a set() shared parameter)
               ("record(v)@branch(0).comp(1)", "record(v)@branch(2)", "record(v)@branch(0).comp(1)", "delete_recordings@branch(2)"),
               ("record(v)@branch(2)", "record(v)@branch(0).comp(1)", "delete_recordings@branch(2)", "record(v)@all"),
               ("record(v)@all", "record(v)@branch(0).comp(1)", "delete_recordings@branch(2)"),
@@ -263,7 +264,7 @@ def _history(kind, tier, chunk, nchunks, is_canary):
               ("add_to_group(g)@branch(2)", "set_ncomp(1)@branch(2)", "set_ncomp(3)@branch(1)") if kind == "cell" else ("add_to_group(g)@branch(2)",),
               ("stimulate@branch(1)", "stimulate@branch(0)", "stimulate@branch(2).comp(0)", "delete_stimuli@branch(0)", "record(v)@all")]
         H = H[chunk::nchunks]
-        bad_wf, bad_wf_f10, bad_undo, bad_undo_f10 = [], [], [], []
+        bad_wf, bad_wf_f10, bad_undo, bad_undo_f10, bad_undo_f25 = [], [], [], [], []
         seen_states = set()
         for h in H:
             m = template(kind)
@@ -325,7 +326,11 @@ def _history(kind, tier, chunk, nchunks, is_canary):
                             post = snapshot(m)
                             if not same_tables(pre, post) or wf(m):
                                 shared = _shares(chname, pre["channels"])
-                                (bad_undo_f10 if shared else bad_undo).append(f"{' ; '.join(trail)} ; {UNDO[op]}: tables differ from the state before the insertion")
+                                # F25: the INSERTION overwrote a value that had been set() for a parameter column the new channel shares with
+                                # a present one (vt of Na / K) - the only column that then differs is that shared parameter
+                                diff_cols = [c for c in pre["nodes"].columns if c in post["nodes"].columns and not pre["nodes"][c].equals(post["nodes"][c])]
+                                f25 = shared and any(t.startswith("set(vt)") for t in trail[:-1]) and chname in ("Na", "K") and diff_cols == ["vt"] and list(pre["nodes"].columns) == list(post["nodes"].columns)
+                                (bad_undo_f25 if f25 else (bad_undo_f10 if shared else bad_undo)).append(f"{' ; '.join(trail)} ; {UNDO[op]}: tables differ from the state before the insertion" + (f" (columns {diff_cols})" if diff_cols else ""))
                         except Exception as e:
                             bad_undo.append(f"{' ; '.join(trail)} ; {UNDO[op]}: raised {type(e).__name__}: {str(e)[:60]}")
             if ok:
@@ -339,6 +344,10 @@ def _history(kind, tier, chunk, nchunks, is_canary):
         out["results"].append(_res(f"{nm}:wf after delete_channel of a channel that shares a parameter column or current name with a remaining channel", not bad_wf_f10, " | ".join(bad_wf_f10[:2]), backend="bounded-evaluation"))
         out["results"].append(_res(f"{nm}:deleting a freshly inserted channel restores the tables (no other mechanism damaged)", not bad_undo, " | ".join(bad_undo[:2]), backend="bounded-evaluation"))
         out["results"].append(_res(f"{nm}:deleting a freshly inserted channel that shares a column / current name with a present channel restores the tables", not bad_undo_f10, " | ".join(bad_undo_f10[:2]), backend="bounded-evaluation"))
+        nm25 = f"{nm}:deleting a freshly inserted channel restores a shared parameter (vt) that had been set() before the insertion"
+        out["results"].append(_res(nm25, not bad_undo_f25, " | ".join(bad_undo_f25[:2]), backend="bounded-evaluation"))
+        if bad_undo_f25:
+            out["witness"][nm25] = {"shared_param_set_before_insert": True, "n": len(bad_undo_f25)}
         for nme, lst in ((f"{nm}:wf after delete_channel of a channel that shares a parameter column or current name with a remaining channel", bad_wf_f10),
                          (f"{nm}:deleting a freshly inserted channel that shares a column / current name with a present channel restores the tables", bad_undo_f10)):
             if lst:
